@@ -54,7 +54,7 @@ def cfg(tier):
     return Cfg(
         engines=(0, 1, 2),
         binary=("chain", "join"),
-        markers=("mat", "xfer", "xfer", "xfer"),
+        markers=("mat", "xfer", "xfer", "xfer", "mark"),
         max_ops=8 if tier == "quick" else 12,
         p_binary=0.18,
         avoid=frozenset(["D9", "D10", "D11"]),
@@ -399,7 +399,9 @@ def run_case(case, stats):
         # later evaluations built on the (now cached) materializations of the input tree return the cached rows
         if not mode:
             reuse_cached_materializations(prog, rels, leaves, env, proc, stats, ctx)
-        refine_processed(prog, leaves, universe, result, env, proc, stats, ctx)
+        if "mark" not in kinds(prog):
+            # (backtracking through a user-defined marker is not implemented by the iteration engine; not this property)
+            refine_processed(prog, leaves, universe, result, env, proc, stats, ctx)
         # hook audit
         per_name = {}
         for hook, rel, dest, name in proc.log:
